@@ -56,7 +56,7 @@ func C20(e *Env) {
 	addr := p.HostPort()
 
 	// ---------------------------------------------------------------- make-iso
-	nTrees := e.Pick(30, 400)
+	nTrees := e.Pick(30, 1500)
 	for i := 0; i < nTrees; i++ {
 		ps3 := i%2 == 1
 		name := fmt.Sprintf("t%03d", i)
@@ -106,7 +106,7 @@ func C20(e *Env) {
 	}
 
 	// ---------------------------------------------------------------- decrypt
-	nImg := e.Pick(60, 1000)
+	nImg := e.Pick(60, 4000)
 	for i := 0; i < nImg; i++ {
 		format := []string{"redump", "3k3y"}[i%2]
 		sectors := 16 + r.Intn(200)
